@@ -7,7 +7,7 @@ Local Open Scope Qc_scope.
 
 Record mlevel := {
   ml_M : nat; ml_dt : Qc; ml_nodes : list Qc;            (* index 0 unused *)
-  ml_Q : list (list Qc); ml_QI : list (list Qc);        (* (M+1) x (M+1) *)
+  ml_Q : list (list Qc); ml_QI : list (list Qc); ml_QE : list (list Qc);   (* (M+1) x (M+1); QE used by imex only *)
   ml_prob : prob; ml_pre : nat; ml_post : nat;
 }.
 Record mxfer := {
@@ -17,12 +17,12 @@ Record mxfer := {
   mx_finter : bool;
 }.
 Record mcase := {
-  m_t0 : Qc; m_fine : mlevel; m_rest : list (mxfer * mlevel);
-  m_u : list (list Qc); m_f : list (list Qc);            (* fine values / right-hand sides at nodes 0..M *)
+  m_t0 : Qc; m_imex : bool; m_fine : mlevel; m_rest : list (mxfer * mlevel);
+  m_u : list (list Qc); m_f : list (list (list Qc));     (* fine values [node][comp] / right-hand sides [node][part][comp] at nodes 0..M *)
 }.
 
 Definition level_of (l : mlevel) : @level Qc nat :=
-  {| lM := ml_M l; ldt := ml_dt l; lnodes := nthq (ml_nodes l); lQ := mat (ml_Q l); lQI := mat (ml_QI l);
+  {| lM := ml_M l; ldt := ml_dt l; lnodes := nthq (ml_nodes l); lQ := mat (ml_Q l); lQI := mat (ml_QI l); lQE := mat (ml_QE l);
      lfeval := feval_of (ml_prob l); lsolve := solve_of (ml_prob l); lpre := ml_pre l; lpost := ml_post l |}.
 Definition xfer_of (x : mxfer) : @xfer Qc nat :=
   {| xRs := matvec (mx_Rs x) (mx_df x); xPs := matvec (mx_Ps x) (mx_dc x);
@@ -30,12 +30,14 @@ Definition xfer_of (x : mxfer) : @xfer Qc nat :=
 
 Definition m_run (C : mcase) : list Qc :=
   let L := m_fine C in
-  let r := vcycle 0 Qcplus Qcmult Qcminus Qc_eqb (m_t0 C) (level_of L)
+  let r := vcycle 0 Qcplus Qcmult Qcminus Qc_eqb (m_t0 C) (m_imex C) (level_of L)
                   (map (fun xl => (xfer_of (fst xl), level_of (snd xl))) (m_rest C))
                   (fun _ => None)
-                  (nodevec_of (m_u C), fun m _ => nthq (nth m (m_f C) [])) in
+                  (nodevec_of (m_u C), fun m p => nthq (nth p (nth m (m_f C) []) [])) in
   let d := p_dim (ml_prob L) in
-  flat_map (fun m => compsd d (fst r m)) (seq 1 (ml_M L)) ++ flat_map (fun m => compsd d (snd r m 0%nat)) (seq 1 (ml_M L)).
+  let np := if m_imex C then 2%nat else 1%nat in
+  flat_map (fun m => compsd d (fst r m)) (seq 1 (ml_M L))
+  ++ flat_map (fun m => flat_map (fun p => compsd d (snd r m p)) (seq 0 np)) (seq 1 (ml_M L)).
 
 Definition check_mcase (ce : mcase * list Qc) : Z :=
   match first_diff 0 (m_run (fst ce)) (snd ce) with None => (-1)%Z | Some i => Z.of_nat i end.
